@@ -12,6 +12,13 @@ CONSTANT QL          \* INPUT_QUEUE_LENGTH (128 in the code)
 
 Blank(f) == [frame |-> f, input |-> Default]
 
+\* TRUE: repaired set_frame_delay (fills derived from the queue and inserted at once); the pinned
+\* behaviour (FALSE) is kept for regression runs that must exhibit the disagreement
+FillFromQueue == TRUE
+\* TRUE: repaired register_local_inputs (blank frames in front of a delayed first input are sent)
+SendLeadingBlanks == TRUE
+PinnedFalse == FALSE
+
 IQ_New ==
   [ head |-> 0, tail |-> 0, length |-> 0, first_frame |-> TRUE,
     last_added |-> NullFrame, last_user |-> NullFrame,
@@ -24,16 +31,6 @@ IQ_New ==
 PrevPos(h) == IF h = 0 THEN QL - 1 ELSE h - 1
 
 Fail(q, msg) == IF q.err = "" THEN [q EXCEPT !.err = msg] ELSE q
-
-\* set_frame_delay: returns <<queue, fills>>; fills is a sequence of [frame, input]
-IQ_SetFrameDelay(q, d) ==
-  LET old == q.delay
-      q1  == [q EXCEPT !.delay = d]
-  IN IF d <= old \/ q.last_added = NullFrame THEN <<q1, <<>>>>
-     ELSE LET cnt   == d - old
-              start == q.last_added + 1
-              last  == q.inputs[PrevPos(q.head)]
-          IN <<q1, [i \in 1..cnt |-> [frame |-> start + i - 1, input |-> last.input]]>>
 
 IQ_ResetPrediction(q) ==
   [q EXCEPT !.pred.frame = NullFrame, !.first_incorrect = NullFrame, !.last_requested = NullFrame]
@@ -77,6 +74,27 @@ IQ_AddByFrame(q, val, frame) ==
      ELSE IF ~a2 THEN Fail(q2, "add_input_by_frame: previous slot mismatch")
      ELSE IF ~a3 THEN Fail(q2, "add_input_by_frame: queue overflow")
      ELSE q2
+
+\* set_frame_delay: returns <<queue, fills>>; fills is a sequence of [frame, input].
+\* (repaired behaviour, repo commit "fix: derive delay-change fills from the queue": the fills are
+\* computed from what the queue holds and inserted right away)
+IQ_SetFrameDelay(q, d) ==
+  LET q1 == [q EXCEPT !.delay = d]
+  IN IF FillFromQueue
+     THEN IF q.last_added = NullFrame THEN <<q1, <<>>>>
+          ELSE LET target == q.last_user + 1 + d
+                   start  == q.last_added + 1
+                   last   == q.inputs[PrevPos(q.head)]
+                   cnt    == IF target > start THEN target - start ELSE 0
+                   RECURSIVE Ins(_, _)
+                   Ins(x, f) == IF f >= target THEN x ELSE Ins(IQ_AddByFrame(x, last.input, f), f + 1)
+               IN <<Ins(q1, start), [i \in 1..cnt |-> [frame |-> start + i - 1, input |-> last.input]]>>
+     ELSE \* pinned behaviour: (new - old) fills after the newest queued frame, not inserted
+          IF d <= q.delay \/ q.last_added = NullFrame THEN <<q1, <<>>>>
+          ELSE LET cnt   == d - q.delay
+                   start == q.last_added + 1
+                   last  == q.inputs[PrevPos(q.head)]
+               IN <<q1, [i \in 1..cnt |-> [frame |-> start + i - 1, input |-> last.input]]>>
 
 \* the fill loop of advance_queue_head: replicate slot `prev` (index computed once, slot read
 \* in every iteration, as the code does) for frames e..(target-1)
